@@ -90,6 +90,8 @@ Section Refine.
   Variables main other : str.
   Variable user_mts : list str.
   Variable limit : N.
+  Variable skip_gc : bool.
+  Variable index_of : str -> option (list desc).
   Variable p : profile.
 
   Hypothesis Hneq : str_eqb main other = false.
@@ -664,7 +666,7 @@ Section Refine.
     valid_ref rf = true -> len c = d_sz d -> H c = d_dg d -> sub_ok c -> rst_ok rst ->
     valid_digest (d_dg d) = true -> len c <= limit ->
     exists g' n' t,
-      man_push H subject_of main limit S ex0 (g, n) rst d c rf
+      man_push H parse_mt subject_of main user_mts limit skip_gc index_of S ex0 (g, n) rst d c rf
       = ((g', n'), rst_of (snd (put_manifest (store_of g) (d_dg d) (d_mt d) c rf)) rst c, t,
          snd (put_manifest (store_of g) (d_dg d) (d_mt d) c rf)) /\
       store_of g' = fst (put_manifest (store_of g) (d_dg d) (d_mt d) c rf).
@@ -685,7 +687,7 @@ Section Refine.
 
   Lemma man_push_bad g n rst d c :
     matches_desc H d c = false -> valid_digest (d_dg d) = true ->
-    exists g' n' t, man_push H subject_of main limit S ex0 (g, n) rst d c (d_dg d) = ((g', n'), rst, t, RErr EOther) /\
+    exists g' n' t, man_push H parse_mt subject_of main user_mts limit skip_gc index_of S ex0 (g, n) rst d c (d_dg d) = ((g', n'), rst, t, RErr EOther) /\
                     store_of g' = store_of g.
   Proof.
     intros M V. unfold man_push.
@@ -710,7 +712,7 @@ Section Refine.
     inv g -> rst_ok rst -> lookup (d_dg d) (g_mans g) = Some (d_mt d, c) -> len c = d_sz d ->
     valid_digest (d_dg d) = true ->
     exists g' n' rst' t,
-      man_delete H parse_mt subject_of main limit S ex0 (g, n) rst d = ((g', n'), rst', t, ROk) /\
+      man_delete H parse_mt subject_of main user_mts limit skip_gc index_of S ex0 (g, n) rst d = ((g', n'), rst', t, ROk) /\
       rst_ok rst' /\
       store_of g' = mkStore (g_blobs g) (remove (d_dg d) (g_mans g))
                       (filter (fun t => negb (str_eqb (snd t) (d_dg d))) (g_tags g)) (g_other g).
@@ -736,7 +738,7 @@ Section Refine.
 
   Lemma man_delete_miss g n rst d :
     lookup (d_dg d) (g_mans g) = None -> valid_digest (d_dg d) = true -> d_sz d <= limit ->
-    exists n' t, man_delete H parse_mt subject_of main limit S ex0 (g, n) rst d = ((g, n'), rst, t, RErr ENotFound).
+    exists n' t, man_delete H parse_mt subject_of main user_mts limit skip_gc index_of S ex0 (g, n) rst d = ((g, n'), rst, t, RErr ENotFound).
   Proof.
     intros L V Hl. assert (El : (limit <? d_sz d) = false) by (apply N.ltb_ge; exact Hl).
     unfold man_delete. destruct (indexable_del (d_mt d) && negb (rs_supported rst)).
@@ -773,7 +775,7 @@ Section Refine.
   (* ---------- Predecessors reflect the registry's state (Referrers API) ---------- *)
   Theorem predecessors_reflect g n rst d :
     p_referrers p = true -> rst <> RSUnsupported ->
-    predecessors main S ex0 (g, n) rst d
+    predecessors H parse_mt main user_mts limit index_of S ex0 (g, n) rst d
     = ((g, n + 1), RSSupported,
        [(req GET main (EReferrers (d_dg d)),
          mkResp 200 (Some mt_index) None None None false None
@@ -787,7 +789,7 @@ Section Refine.
   Notation wf_op := (wf_op H parse_mt subject_of main user_mts limit p).
   Notation wf_hist := (wf_hist H parse_mt subject_of main user_mts limit p).
   Notation spec_op' := (spec_op H subject_of main user_mts).
-  Notation run_op' := (run_op H parse_mt subject_of main other user_mts limit S ex0).
+  Notation run_op' := (run_op H parse_mt subject_of main other user_mts limit skip_gc index_of S ex0).
 
   Lemma matches_desc_true d c : matches_desc H d c = true -> len c = d_sz d /\ H c = d_dg d.
   Proof.
@@ -969,7 +971,7 @@ Section Refine.
   Qed.
 
   (* ---------- histories ---------- *)
-  Notation run_ops' := (run_ops H parse_mt subject_of main other user_mts limit S ex0).
+  Notation run_ops' := (run_ops H parse_mt subject_of main other user_mts limit skip_gc index_of S ex0).
   Notation spec_run' := (spec_run H subject_of main user_mts).
 
   Lemma run_ops_refines os : forall g n rst,
@@ -995,7 +997,7 @@ Section Refine.
     (forall d c, lookup d other_blobs = Some c -> d = H c) ->
     rst_ok rst ->
     wf_hist (mkStore [] [] [] other_blobs) os ->
-    run_history H parse_mt subject_of main other user_mts limit p None other_blobs rst os = (g, out) ->
+    run_history H parse_mt subject_of main other user_mts limit skip_gc index_of p None other_blobs rst os = (g, out) ->
     map snd out = snd (spec_run' (mkStore [] [] [] other_blobs) os) /\
     store_of g = fst (spec_run' (mkStore [] [] [] other_blobs) os).
   Proof.
@@ -1085,17 +1087,18 @@ Qed.
 
 (* every request of every history against the registry model is allowed, also when one
    response is corrupted in any field but the status *)
-Theorem run_history_allowed H parse_mt subject_of main other user_mts limit p kor other_blobs rst os g out :
+Theorem run_history_allowed H parse_mt subject_of main other user_mts limit skip_gc index_of p kor other_blobs rst os g out :
   valid_repository main = true -> valid_repository other = true ->
+  (forall c, valid_digest (H c) = true) ->
   no_status_corruption kor -> Forall op_ok os ->
-  run_history H parse_mt subject_of main other user_mts limit p kor other_blobs rst os = (g, out) ->
+  run_history H parse_mt subject_of main other user_mts limit skip_gc index_of p kor other_blobs rst os = (g, out) ->
   Forall (fun tr => Forall (fun qr => allowed (fst qr) = true) (fst tr)) out.
 Proof.
-  intros Vm Vo Hk Hok. unfold run_history.
-  destruct (run_ops _ _ _ _ _ _ _ _ _ _ rst os) as [[s rst'] out'] eqn:E.
+  intros Vm Vo Hv Hk Hok. unfold run_history.
+  destruct (run_ops _ _ _ _ _ _ _ _ _ _ _ _ rst os) as [[s rst'] out'] eqn:E.
   intro X. injection X as _ <-.
-  eapply (run_ops_allowed H parse_mt subject_of main other user_mts limit (reg * N)
-            (cexch H subject_of main other p kor) Vm Vo (registry_loc_ok _ _ _ _ _ _ Vm Hk)); eauto.
+  eapply (run_ops_allowed H parse_mt subject_of main other user_mts limit skip_gc index_of (reg * N)
+            (cexch H subject_of main other p kor) Vm Vo (registry_loc_ok _ _ _ _ _ _ Vm Hk) Hv); eauto.
 Qed.
 
 (* ---------- the known limitation, as a witness ---------- *)
@@ -1103,13 +1106,14 @@ Qed.
    PushReference under a tag, Resolve of that tag fails although the store holds it. *)
 Definition w_H (_ : str) : str := zero_digest.
 Definition w_limit : N := 4194304.
+Definition w_index_of (_ : str) : option (list desc) := Some [].
 Definition w_profile := mkProfile false true true false false.
 Definition w_content := b "{}".
 Definition w_desc := mkDesc mt_oci_manifest zero_digest 2.
 Definition w_ops := [OPushRef w_desc w_content (b "v1"); OResolve (b "v1")].
 
 Lemma resolve_tag_without_digest_header_refuted :
-  map snd (snd (run_history w_H (fun s => Some s) (fun _ => Some None) (b "app") (b "src") [] w_limit
+  map snd (snd (run_history w_H (fun s => Some s) (fun _ => Some None) (b "app") (b "src") [] w_limit false w_index_of
                             w_profile None [] RSUnknown w_ops))
   = [ROk; RErr EOther] /\
   snd (spec_run w_H (fun _ => Some None) (b "app") [] (mkStore [] [] [] []) w_ops)
@@ -1191,7 +1195,7 @@ Definition cover_ops (p : profile) : list op :=
 
 Definition covered (p : profile) (rst : rstate) : bool :=
   results_eqb
-    (map snd (snd (run_history w_H (fun s => Some s) ex_subject (b "app") (b "src") [] w_limit p None
+    (map snd (snd (run_history w_H (fun s => Some s) ex_subject (b "app") (b "src") [] w_limit false w_index_of p None
                                [(zero_digest, ex_blob)] rst (cover_ops p))))
     (snd (spec_run w_H ex_subject (b "app") [] (mkStore [] [] [] [(zero_digest, ex_blob)]) (cover_ops p))).
 
